@@ -11,6 +11,7 @@ import (
 	"fmt"
 	"math"
 	"os"
+	"runtime"
 	"strings"
 )
 
@@ -145,7 +146,7 @@ func ExpectPanic(f func()) (panicked bool) {
 	return false
 }
 
-func Symbolic() bool               { return false }
+func Symbolic() bool                { return false }
 func IsConcrete(v interface{}) bool { return true }
 func Ite32(c bool, a, b uint32) uint32 {
 	if c {
@@ -165,9 +166,9 @@ func F32Less(a, b float32) bool  { return a < b }
 func F32Eq(a, b float32) bool    { return a == b }
 
 // File-system model helpers: meaningful only inside the engine.
-func FsTraceLen() int              { return int(next("tracelen").Val) }
-func FsTraceKind(k int) string     { return "" }
-func FsTraceWriteLen(k int) int    { return 1 << 30 }
+func FsTraceLen() int                          { return int(next("tracelen").Val) }
+func FsTraceKind(k int) string                 { return "" }
+func FsTraceWriteLen(k int) int                { return 1 << 30 }
 func FsTraceIsWrite(k int, suffix string) bool { return true }
 
 // FsCrash: in the engine, replaces the file system by the state after the first k writes of the I/O
@@ -224,6 +225,10 @@ func MapOrdersIn(fn string) {}
 // separated substrings run under the cooperative scheduler (all schedules explored). Natively a no-op:
 // the Go runtime schedules.
 func Sched(list string) {}
+
+// Yield(): an explicit switch point under the engine's scheduler (another goroutine may run here; counts
+// against the preemption bound). Natively runtime.Gosched().
+func Yield() { runtime.Gosched() }
 
 // SchedPreempt(n): bound on preemptive context switches per path in the engine's scheduler (default 1);
 // switches at blocking operations are never bounded.
